@@ -14,9 +14,10 @@ TReset == Is("reset") /\ Reset(E.cfg)
 TCreate == Is("create") /\ Create(E.c) /\ Matches(ev', E)
 TPoll == Is("poll") /\ PollAny(E.c) /\ Matches(ev', E)
 TDrop == Is("drop") /\ Drop(E.c) /\ Matches(ev', E)
+TComplete == Is("complete") /\ Complete(E.c, E.out) /\ Matches(ev', E)
 TAdvance == Is("advance") /\ Advance(E.d) /\ Matches(ev', E)
 TEnd == Is("op") /\ E.name = "end" /\ End
-TNext == TReset \/ TCreate \/ TPoll \/ TDrop \/ TAdvance \/ TEnd
+TNext == TReset \/ TCreate \/ TPoll \/ TDrop \/ TComplete \/ TAdvance \/ TEnd
 
 Accepted ==
   LET d == TLCGet("stats").diameter IN
